@@ -336,3 +336,15 @@ def lemma_indep_stack(stack, st, b, f):
     lemma_indep_stack(stack[:-1], den(stack[-1][0], stack[-1][1], stack[-1][2], st),
                       den(stack[-1][0], stack[-1][1], stack[-1][2], St(st.out, st.col, st.k, b, f)).brk,
                       den(stack[-1][0], stack[-1][1], stack[-1][2], St(st.out, st.col, st.k, b, f)).fl)
+
+
+# ---- align: the evaluator of the contextual document sets the indentation to the column --------------------------------
+_al = C.contract('prettyprinter.doc', 'align.evaluator',
+                 params={'indent': 'Int', 'column': 'Int', 'page_width': 'Int', 'ribbon_width': 'Int'}, returns='Obj',
+                 ensures=[('nest-to-the-column', 'isinstance(result, Nest) and result.indent == column - indent and result.doc == doc'),
+                          ('breaks-at-the-column', 'den(indent, m_, result, st_) == den(column, m_, doc, st_)')],
+                 forall={'m_': 'Mode', 'st_': 'St'},
+                 serves=['C04'],
+                 note='`doc` is the free variable of the closure: a line break inside align(doc) is indented to the column at which the '
+                      'aligned document starts, whatever the enclosing indentation is (also when the column is left of it)')
+_al.globals_ = {'doc': 'Obj'}
